@@ -190,8 +190,10 @@ func init() {
 			for _, where := range [][]string{{"contents"}, {"overrides", "{fmt}", "contents"}} {
 				for _, ex := range []string{"true", "false", "absent"} {
 					for _, v := range c16Values {
-						if !yield(C16Case{Part: "contents-expand", Path: where, Value: v, Expand: ex, Env: map[string]string{"V": "val"}}) {
-							return
+						for _, kind := range []string{"", "dir", "ghost", "symlink", "dst-only"} {
+							if !yield(C16Case{Part: "contents-expand", Path: where, Value: v, Expand: ex, Env: map[string]string{"V": "val"}, Kind: kind}) {
+								return
+							}
 						}
 					}
 				}
@@ -235,6 +237,20 @@ func init() {
 			}
 			underFmt := func(p []string) bool { return indexOf(p, "{fmt}") >= 0 }
 			// variables whose values are blank or carry blanks: list items are trimmed after expansion and dropped when nothing is left
+			// a variable whose value itself looks like a reference: substituted once, never re-expanded
+			for _, lf := range leaves {
+				switch lf.Kind {
+				case "string", "strptr", "strlist", "strmap":
+					for _, f := range []string{"", "ipk"} {
+						if f != "" && !underFmt(lf.Path) {
+							continue
+						}
+						if !yield(C16Case{Part: "expand", Path: lf.Path, Kind: lf.Kind, Value: "${V}", Env: map[string]string{"V": "$W-${W}", "W": "wal"}, Fmt: f}) {
+							return
+						}
+					}
+				}
+			}
 			blankEnvs := []map[string]string{{"V": " "}, {"V": " val "}, {"V": "\t\n"}, {"V": "val\n"}}
 			for _, lf := range leaves {
 				if lf.Kind != "strlist" {
@@ -572,6 +588,15 @@ func checkC16(env *engine.Env, ci any) engine.Outcome {
 		}
 	case "contents-expand":
 		entry := map[string]any{"src": "s-" + c.Value, "dst": "/d-" + c.Value}
+		switch c.Kind {
+		case "dir", "ghost":
+			entry["type"] = c.Kind
+			delete(entry, "src")
+		case "symlink":
+			entry["type"] = c.Kind
+		case "dst-only":
+			delete(entry, "src")
+		}
 		switch c.Expand {
 		case "true":
 			entry["expand"] = true
@@ -593,10 +618,14 @@ func checkC16(env *engine.Env, ci any) engine.Outcome {
 		}
 		src, dst := v.FieldByName("Source").String(), v.FieldByName("Destination").String()
 		wantSrc, wantDst := "s-"+c.Value, "/d-"+c.Value
+		if _, has := entry["src"]; !has {
+			wantSrc = ""
+		}
 		if c.Expand == "true" {
 			m := envFunc(c.Env)
 			wantSrc, wantDst = strings.TrimSpace(os.Expand(wantSrc, m)), strings.TrimSpace(os.Expand(wantDst, m))
 		}
+		out.Key += ":" + c.Kind
 		if src != wantSrc || dst != wantDst {
 			cls := "opted-in"
 			if c.Expand != "true" {
